@@ -132,7 +132,7 @@ func TestC24(t *testing.T) {
 		c.Bulk("corpus", n, n)
 	})
 
-	c.Rapid("cases", 640, 12000, func(rt *rapid.T) {
+	c.Rapid("cases", 640, 6400, func(rt *rapid.T) {
 		var cas sysCase
 		class := "rom"
 		if len(roms) > 0 && rapid.IntRange(0, 2).Draw(rt, "kind") == 0 {
@@ -149,7 +149,7 @@ func TestC24(t *testing.T) {
 		}
 		cas.Video = rapid.Bool().Draw(rt, "video")
 		cas.Audio = rapid.Bool().Draw(rt, "audio")
-		cas.Frames = rapid.IntRange(1, c.Env.Pick(40, 300)).Draw(rt, "frames")
+		cas.Frames = rapid.IntRange(1, c.Env.Pick(40, 240)).Draw(rt, "frames")
 		cas.Inputs = c24GenInputs(rt, cas.Frames)
 		info, sig, err := c24Run(cas, true)
 		if cas.Video {
